@@ -48,5 +48,8 @@ RECURSIVE Aliases(_)
 Aliases(b) == IF b = <<>> THEN <<>> ELSE (IF Head(b)[1] = "imp" THEN Tail(Head(b)) ELSE IF Head(b)[1] = "from" THEN Tail(Tail(Head(b))) ELSE <<>>) \o Aliases(Tail(b))
 ImportOrderPreserved == \A b \in Allowed(opts, ctx, env, blk) : Aliases(b) = Aliases(blk)
 
+\* for tying the harness's eraser (harness/suitecanon.py) to S: what S allows here, and what it would allow only with every option on
+EmitAllowed == PrintT(ToJson([ctx |-> ctx, env |-> env, blk |-> blk, opts |-> opts, allowed |-> Allowed(opts, ctx, env, blk),
+                              wider |-> Allowed(Opt, ctx, env, blk) \ Allowed(opts, ctx, env, blk)]))
 EmitCase == PrintT(ToJson([ctx |-> ctx, env |-> env, blk |-> blk, opts |-> opts, m |-> MOut(opts, ctx, env, blk)]))
 =============================================================================
